@@ -129,7 +129,32 @@ class RealIO:
         return os.path.normpath(os.path.join(str(base), rel))
 
 
-def make_stubs(io_, st):
+class _ToolModel:
+    """Stands where `subprocess` is in core/postprocess_manager.py.  Contract of the tools it is asked to run: ruff keeps a
+    cache directory `.ruff_cache` in the working directory unless told `--no-cache` (or `--cache-dir`); here the working
+    directory is the project root (where the CLI is normally started)."""
+
+    PIPE = -1
+
+    def __init__(self, io_, cwd):
+        self.io, self.cwd, self.argvs = io_, cwd, []
+
+    def run(self, argv, **kw):
+        argv = list(argv)
+        self.argvs.append(argv)
+        words = [a for a in argv if isinstance(a, str)]
+        if "ruff" in words and "--no-cache" not in words and not any(w.startswith("--cache-dir") for w in words):
+            self.io.write(self.io.cat(self.cwd, ".ruff_cache", "CACHEDIR.TAG"), "ruff cache")
+
+        class Done:
+            returncode = 0
+            stdout = ""
+            stderr = ""
+
+        return Done()
+
+
+def make_stubs(io_, st, pm_mod=None):
     """Recording stand-ins for loader, emitters and post-processing.  File contents encode the arguments that matter for
     the generated text (package names, relative position of the package below the project root), so that a non-force
     re-run can only report 'no differences' if both branches of generate() pass equivalent arguments."""
@@ -215,10 +240,23 @@ def make_stubs(io_, st):
 
     class PostprocessManager:
         def __init__(self, root):
-            pass
+            self.root = root
 
         def run(self, files):
             st.tick("postprocess")
+            if pm_mod is None:
+                return
+            # the REAL manager's ruff steps (command lines are the repo's) against the tool contract above
+            saved = pm_mod.subprocess
+            pm_mod.subprocess = _ToolModel(io_, self.root)
+            try:
+                real = pm_mod.PostprocessManager(self.root)
+                targets = [f for f in files][:2]
+                real.remove_unused_imports_bulk(targets)
+                real.sort_imports_bulk(targets)
+                real.format_code_bulk(targets)
+            finally:
+                pm_mod.subprocess = saved
 
     return dict(RenderContext=RenderContext, fetch_spec=fetch_spec, load_ir_from_spec=load_ir_from_spec, WarningCollector=WarningCollector,
                 ExceptionsEmitter=ExceptionsEmitter, CoreEmitter=CoreEmitter, ModelsEmitter=ModelsEmitter,
@@ -314,7 +352,7 @@ def k_history_sym(P, out_pkg, core_pkg, tamper, force2, fault2):
 
     def run(force, fault):
         st = State(fault)
-        repl = make_stubs(SymIO(fs), st)
+        repl = make_stubs(SymIO(fs), st, import_module(P.__name__ + ".core.postprocess_manager"))
         repl.update(Path=memfs.path_factory(fs), tempfile=memfs.TempDirs(fs), shutil=memfs.Shutil(fs), os=memfs.Os(fs))
 
         def fake_open(p, mode="r"):
@@ -405,7 +443,7 @@ def k_history_real(P, out_pkg, core_pkg, tamper, force2, fault2):
 
         def run(force, fault):
             st = State(fault)
-            repl = make_stubs(RealIO(), st)
+            repl = make_stubs(RealIO(), st, import_module(P.__name__ + ".core.postprocess_manager"))
             repl["tempfile"] = _Tempfile
             with _Patched(cg, repl):
                 return _run(cg, root, out_pkg, core_pkg, force), st
